@@ -364,10 +364,10 @@ PROPS = {
     'C02': dict(groups=['tree']),
     'C03': dict(groups=['tree', 'alt', 'ovl']),
     'C05': dict(groups=['tree', 'alt', 'ovl']),
-    'C12': dict(groups=['tree', 'alt', 'ovl', 'join']),
+    'C12': dict(groups=['tree', 'alt', 'ovl', 'join', 'faults']),
     'C13': dict(groups=['tree', 'alt', 'ovl', 'join', 'handles', 'hostile', 'hostiledir', 'emb']),
     'C07': dict(groups=['alt', 'hostile']),
-    'C08': dict(groups=['ovl']),
+    'C08': dict(groups=['ovl', 'faults']),
     'C09': dict(groups=['ovl']),
     'C06': dict(groups=['join']),
     'C15': dict(groups=['async', 'join']),
